@@ -111,7 +111,7 @@ pub fn run(cfg: Config) -> i32 {
 }
 
 fn functional_vs_eos(m: &mut Monitor, cfg: &Config) {
-    let (reps, nstates) = cfg.tier.pick((8, 12), (40, 30));
+    let (reps, nstates) = cfg.tier.pick((8, 12), (150, 60));
     let fams = [
         "pcsaft",
         "pcsaft-assoc",
@@ -204,7 +204,7 @@ fn bmcsl(rho: &[f64], d: &[f64], v: f64) -> f64 {
 }
 
 fn fmt_vs_bmcsl(m: &mut Monitor, cfg: &Config) {
-    let n = cfg.tier.pick(2500, 20_000);
+    let n = cfg.tier.pick(2500, 200_000);
     let cases: Vec<u64> = (0..n).collect();
     par_cases(m, &cases, |m, _, &i| {
         let mut rng = Rng::derive(cfg.seed, "c08-fmt", i);
@@ -243,7 +243,7 @@ fn fmt_vs_bmcsl(m: &mut Monitor, cfg: &Config) {
 }
 
 fn wrapper_vs_bare(m: &mut Monitor, cfg: &Config) {
-    let (reps, nstates) = cfg.tier.pick((8, 8), (30, 20));
+    let (reps, nstates) = cfg.tier.pick((8, 8), (150, 40));
     let stream = build_stream(cfg.seed, "c08-wrap", &["pr", "pcsaft-assoc", "pcsaft-polar", "saftvrmie"], &[1, 2, 3], reps, nstates, false, 0.4, 3.0);
     par_cases(m, &stream, |m, ci, sc| {
         let spec = &sc.mc.spec;
@@ -304,7 +304,7 @@ fn wrapper_vs_bare(m: &mut Monitor, cfg: &Config) {
 }
 
 fn epcsaft_vs_pcsaft(m: &mut Monitor, cfg: &Config) {
-    let (reps, nstates) = cfg.tier.pick((12, 8), (60, 20));
+    let (reps, nstates) = cfg.tier.pick((12, 8), (300, 40));
     let stream = build_stream(cfg.seed, "c08-epc", &["pcsaft", "pcsaft-assoc", "pcsaft-crossassoc"], &[1, 2, 3], reps, nstates, false, 0.4, 3.0);
     par_cases(m, &stream, |m, ci, sc| {
         // same pure records, constant k_ij
@@ -335,14 +335,23 @@ fn epcsaft_vs_pcsaft(m: &mut Monitor, cfg: &Config) {
             // the two crates carry separate copies of the association code; with two associating
             // components the site fractions come from an iteration with tolerance 1e-10, whose
             // last-bit differences are amplified to ~1e-12 of the energy scale
-            let tol = if sc.mc.family.contains("assoc") { 1e-10 } else { 1e-11 };
+            let tol = if sc.mc.family.contains("assoc") { 1e-9 } else { 1e-11 };
+            let mut info = info.clone();
+            info["state"] = ss.json();
+            // a NaN on one side only is a different failure from a numerical mismatch
+            let (fa, fb) = (a.residual_helmholtz_energy().to_reduced().is_finite(), b.residual_helmholtz_energy().to_reduced().is_finite());
+            if fa != fb {
+                let which = if fb { "epcsaft" } else { "pcsaft" };
+                m.check_bool("epcsaft(no ions)=pcsaft", &format!("epcsaft=pcsaft|{}|non-finite A_res from {which} only", sc.mc.family), case, false, || json!({"info": info, "A_res epcsaft": fnum(a.residual_helmholtz_energy().to_reduced()), "A_res pcsaft": fnum(b.residual_helmholtz_energy().to_reduced())}));
+                continue;
+            }
             compare(m, "epcsaft(no ions)=pcsaft", &format!("epcsaft=pcsaft|{}", sc.mc.family), case, &a, &b, sa, tol, &info);
         }
     });
 }
 
 fn vrq_fh0_vs_vrmie(m: &mut Monitor, cfg: &Config) {
-    let n = cfg.tier.pick(400, 3000);
+    let n = cfg.tier.pick(400, 30_000);
     let cases: Vec<u64> = (0..n).collect();
     par_cases(m, &cases, |m, _, &i| {
         let mut rng = Rng::derive(cfg.seed, "c08-vrq", i);
@@ -396,7 +405,7 @@ fn association_paths(m: &mut Monitor, cfg: &Config) {
     let col = Collections::load();
     let assoc: Vec<&Shipped> = col.gross.iter().filter(|s| is_assoc(&s.record)).collect();
     let non: Vec<&Shipped> = col.gross.iter().filter(|s| !is_assoc(&s.record)).collect();
-    let n = cfg.tier.pick(800, 6000);
+    let n = cfg.tier.pick(800, 60_000);
     let cases: Vec<u64> = (0..n).collect();
     par_cases(m, &cases, |m, _, &i| {
         let mut rng = Rng::derive(cfg.seed, "c08-assoc", i);
@@ -496,7 +505,7 @@ fn homo_gc(m: &mut Monitor, cfg: &Config) {
         ("sauer2014_homo.json", None),
         ("rehner2023_homo.json", Some("rehner2023_homo_binary.json")),
     ];
-    let n = cfg.tier.pick(300, 1500);
+    let n = cfg.tier.pick(300, 15_000);
     let cases: Vec<u64> = (0..n).collect();
     par_cases(m, &cases, |m, _, &i| {
         let mut rng = Rng::derive(cfg.seed, "c08-gc", i);
@@ -621,7 +630,7 @@ fn homo_gc(m: &mut Monitor, cfg: &Config) {
 
 fn pr_closed_form(m: &mut Monitor, cfg: &Config) {
     const R: f64 = 8.31446261815324;
-    let n = cfg.tier.pick(2500, 20_000);
+    let n = cfg.tier.pick(2500, 200_000);
     let cases: Vec<u64> = (0..n).collect();
     par_cases(m, &cases, |m, _, &i| {
         let mut rng = Rng::derive(cfg.seed, "c08-pr", i);
